@@ -264,7 +264,8 @@ def check_merge_callback(chk, prog):
 def check_nomerge(chk, prog):
     R = chk.rule("R-NOMERGE-PANICS", "in ResolvedMergeFn::run the AssertEq arm calls ExecutionState::call_external_func(panic) "
                  "on the branch where cur != new")
-    f = prog.need("egglog_bridge::ResolvedMergeFn::run")
+    f = prog.need_role("egglog_bridge::ResolvedMergeFn::run", lambda x: x.crate == "egglog_bridge" and x.locals[0].endswith("::Value") and
+                       bool(match_arms(prog, x, "egglog_bridge::ResolvedMergeFn")), "bridge function matching on ResolvedMergeFn and returning a Value")
     arms = match_arms(prog, f, "egglog_bridge::ResolvedMergeFn")
     if not arms:
         chk.missing(R, "match on ResolvedMergeFn in ResolvedMergeFn::run")
@@ -297,7 +298,8 @@ def check_nomerge(chk, prog):
 
 def check_old_new(chk, prog):
     R = chk.rule("R-OLD-NEW", "translate_expr_to_mergefn maps variable \"old\" to MergeFn::Old and \"new\" to MergeFn::New")
-    f = prog.need("egglog::EGraph::translate_expr_to_mergefn")
+    f = prog.need_role("egglog::EGraph::translate_expr_to_mergefn", lambda x: x.crate == "egglog" and any(
+        s[2][0] == "agg" and s[2][2] == "egglog_bridge::MergeFn" and s[2][3] == "Old" for _, _, s in x.assigns()), "egglog function building MergeFn::Old")
     seen = {}
     for c in f.calls:
         if c.p.endswith("PartialEq>::eq") and len(c.args) == 2 and c.args[1][0] == "k":
@@ -318,7 +320,8 @@ def check_old_new(chk, prog):
         chk.judge(seen[lit] == {want}, R, f"egglog::EGraph::translate_expr_to_mergefn:{lit}",
                   f'"{lit}" builds MergeFn::{want}', f'"{lit}" builds {sorted(seen[lit])} instead of MergeFn::{want}', f.loc)
     # and the bridge interprets Old as cur, New as new
-    g = prog.need("egglog_bridge::ResolvedMergeFn::run")
+    g = prog.need_role("egglog_bridge::ResolvedMergeFn::run", lambda x: x.crate == "egglog_bridge" and x.locals[0].endswith("::Value") and
+                       bool(match_arms(prog, x, "egglog_bridge::ResolvedMergeFn")), "bridge function matching on ResolvedMergeFn and returning a Value")
     arms = match_arms(prog, g, "egglog_bridge::ResolvedMergeFn")
     if arms:
         sw, amap, _, _ = arms[0]
